@@ -122,7 +122,11 @@ def explore(ctx: Ctx, name, doc, rnd, npoints, rescale):
             if not v.requires_grad:
                 auto[k] = [None] * len(leaves)
                 continue
-            auto[k] = torch.autograd.grad(v, leaves, retain_graph=True, allow_unused=True)
+            try:
+                auto[k] = torch.autograd.grad(v, leaves, retain_graph=True, allow_unused=True)
+            except RuntimeError as e:
+                ctx.violation(f"C12:{name}:{k}:backward-raises", f"{tag}: back-propagating from {k} raises {type(e).__name__}: {str(e)[:120]}", {"config": name, "density": k})
+                return num_infl, grad_infl
         if not all(math.isfinite(x) for x in val0.values()):
             ctx.add("points_skipped_nonfinite_value")
             continue
@@ -233,6 +237,59 @@ def big_case(ctx: Ctx, rnd, n, kind, tip_states, ncoords):
         ctx.add("traces_validated_against_impl")
 
 
+def check_transform_gradients(ctx: Ctx, rnd):
+    """Gradient of every log-Jacobian term with respect to its argument, for unbatched and batched arguments ([N], [1, N], [3, N]):
+    back-propagation through TransformedParameter.__call__ against central differences."""
+    import torch
+    from torchtree.core.parameter import Parameter, TransformedParameter
+    from torchtree.core.utils import process_object
+    specs = [("torch.distributions.ExpTransform", {}, "real"), ("torch.distributions.SigmoidTransform", {}, "real"),
+             ("torch.distributions.StickBreakingTransform", {}, "real"), ("CumSumExpTransform", {}, "real"),
+             ("torchtree.distributions.transforms.CumSumSoftPlusTransform", {}, "real"), ("torchtree.distributions.transforms.SoftPlusTransform", {}, "real"), ("LogTransform", {}, "pos"),
+             ("torch.distributions.AffineTransform", {"loc": 0.3, "scale": 2.5}, "real")]
+    for tr, params, dom in specs:
+        for shape in ([4], [1, 4], [3, 4]):
+            g = torch.Generator().manual_seed(rnd.randrange(1 << 30))
+            x0 = torch.randn(shape, generator=g, dtype=torch.float64) * 0.7
+            if dom == "pos":
+                x0 = x0.exp()
+            js = {"id": "y", "type": "TransformedParameter", "transform": tr, "x": {"id": "x", "type": "Parameter", "tensor": x0.tolist()}}
+            if params:
+                js["parameters"] = params
+            try:
+                dic = {}
+                y = process_object(js, dic)
+                xp = dic["x"]
+                xp.tensor = x0.clone().requires_grad_(True)
+                val = y().sum()
+                ga = torch.autograd.grad(val, [xp.tensor], allow_unused=True)[0] if val.requires_grad else None
+            except Exception as e:
+                ctx.note(f"transform {tr} shape {shape}: not checked ({type(e).__name__}: {str(e)[:80]})")
+                continue
+            ctx.add("transform_gradient_cases")
+            h = 1e-5
+            num = torch.zeros_like(x0)
+            flat = x0.reshape(-1)
+            for i in range(flat.numel()):
+                def f(delta):
+                    t = flat.clone()
+                    t[i] += delta
+                    xp.tensor = t.reshape(shape)
+                    with torch.no_grad():
+                        return float(y().sum())
+                num.reshape(-1)[i] = (f(h) - f(-h)) / (2 * h)
+            xp.tensor = x0
+            name = tr.split(".")[-1]
+            if ga is None:
+                if float(num.abs().max()) > 1e-6:
+                    ctx.violation(f"C12:transform:{name}:missing", f"{name} with argument of shape {shape}: the log-Jacobian has derivative {num.reshape(-1)[:4].tolist()} "
+                                  "numerically but carries no gradient", {"transform": tr, "shape": shape})
+                continue
+            if float((ga - num).abs().max()) > 1e-5 * max(1.0, float(num.abs().max())):
+                ctx.violation(f"C12:transform:{name}:mismatch", f"{name} with argument of shape {shape}: gradient of the log-Jacobian {ga.reshape(-1)[:4].tolist()}, "
+                              f"numerical derivative {num.reshape(-1)[:4].tolist()}", {"transform": tr, "shape": shape})
+
+
 def run_gradflow(ctx: Ctx, name, dic, raw_ids, dens, num_infl, grad_infl):
     from .graph import Graph
     g = Graph(dic)
@@ -298,6 +355,7 @@ def run(ctx: Ctx):
             ctx.cov.setdefault("densities", {})[name] = sorted(dens)
             ctx.sample({"configuration": name, "argv": argv[5:], "densities": len(dens), "raw_parameters": raw_ids,
                         "influences": {k: sorted(v) for k, v in list(merged_n.items())[:3]}}, limit=4)
+    check_transform_gradients(ctx, rnd)
     for n, kind, tip_states in ([(24, "balanced", False), (800, "balanced", False), (800, "random", True)] if quick else
                                 [(24, "balanced", False), (24, "random", True), (420, "balanced", False), (800, "balanced", False), (800, "random", True),
                                  (1000, "random", False), (500, "caterpillar", False), (1200, "balanced", True)]):
